@@ -129,3 +129,27 @@ func drawRune(t *rapid.T, style int) rune {
 		return rune(rapid.IntRange(0x10000, 0x10ffff).Draw(t, "astral"))
 	}
 }
+
+// Chance is true with probability num/den. rapid's integer generators favour
+// small and boundary values, so a plain "IntRange(0, n) == 0" fires far more
+// often than 1/(n+1); here the drawn value is mixed first. It shrinks to false.
+func Chance(t *rapid.T, label string, num, den uint64) bool {
+	v := rapid.Uint64().Draw(t, label)
+	x := (v * 0x9E3779B97F4A7C15) >> 17
+	return x%den >= den-num && v != 0
+}
+
+// DERShaped draws content that is itself exactly one well-formed DER element
+// (a signed certificate file, a small SEQUENCE, an OCTET STRING): verifiers
+// must hash it as opaque octets.
+func DERShaped(t *rapid.T) []byte {
+	body := SizedBytes(120, 0, 1, 2, 3).Draw(t, "derbody")
+	tag := rapid.SampledFrom([]byte{0x30, 0x04, 0x31, 0x02, 0x0c, 0xa0}).Draw(t, "dertag")
+	out := []byte{tag}
+	if len(body) < 128 {
+		out = append(out, byte(len(body)))
+	} else {
+		out = append(out, 0x81, byte(len(body)))
+	}
+	return append(out, body...)
+}
